@@ -315,6 +315,7 @@ class TokenizerState:
         self.continued = False
         self.indents = [0]
         self.last_line = ""
+        self.comment_lnum = 0  # number of the last line that held nothing but a comment
         self.line = ""
         self.pos = 0
         self.max = 0
@@ -433,6 +434,7 @@ def next_statement(state: TokenizerState) -> Generator[TokenInfo, None, bool | N
 
     if state.line[state.pos] in "#\r\n":  # skip comments or blank lines
         if state.line[state.pos] == "#":
+            state.comment_lnum = state.lnum
             comment_token = state.line[state.pos :].rstrip("\r\n")
             yield TokenInfo(
                 Token.COMMENT,
@@ -528,7 +530,8 @@ def next_psuedo_matches(state: TokenizerState) -> TokenInfo | None:
 
 def next_end_tokens(state: TokenizerState) -> Iterator[TokenInfo]:
     # Add an implicit NEWLINE if the input doesn't end in one
-    if state.last_line and state.last_line[-1] not in "\r\n" and not state.last_line.strip().startswith("#"):
+    # ... unless that last line is a comment line (a line that merely starts with '#' may also be the tail of a multi-line string)
+    if state.last_line and state.last_line[-1] not in "\r\n" and state.comment_lnum != state.lnum - 1:
         yield TokenInfo(
             Token.NEWLINE,
             "",
